@@ -360,7 +360,10 @@ def h_instantiate(kind, n_children):
         from .lib import arbitrary_class_state
         arbitrary_class_state(vm, Var, lambda it2: UserVal("something-remembered-from-elsewhere"))
         me = vm.alloc(Var, {"_id_": 5, "_type_": typ, "_predicate_type_": ptype, "_child_vars_": make_dict(list(children.items())),
-                            "_is_inferred_": False}, tag="predicate-variable")
+                            "_is_inferred_": False, "_is_false_": False,
+                            # evaluated as a condition below a conjunction (the role was decided when the evaluation was entered)
+                            "_eval_parent_": vm.alloc(cls(vm, SYM, "AND"), {"_id_": 4}, tag="enclosing-conjunction"),
+                            "_conditions_root_": vm.alloc(cls(vm, SYM, "SymbolicExpression"), {"_id_": 1}, tag="conditions-root")}, tag="predicate-variable")
         # consistent truth value per user object
         truths = {}
 
